@@ -10,7 +10,7 @@ PY = '/venv/bin/python'
 CLAIMED = {
     'C04': dict(engine='execsim', design='4.1',
                 technique='deterministic simulation: seeded override/query histories x 16 hash seeds, refinement against re-translation of the edited workbook in a pristine foreign process',
-                text='Seeded search over histories of set_cells/get_cell/get_cells/get_sheet calls (1-3 logical clients, 1-2 executors over one generated class, operation-level interleaving, 16 string-hash seeds) on generated workbooks; after every query the response must equal what a fresh Parser+Executor report for the workbook with each overridden cell replaced by its most recent constant (reference execution in a pristine process with another hash seed). Exploration, not proof: a clean batch is evidence over the sampled histories only.',
+                text='Seeded search over histories of set_cells/get_cell/get_cells/get_sheet calls (1-3 logical clients, 1-2 executors over one generated class, operation-level interleaving, 16 string-hash seeds; batches sent again, callers that re-aim or change their Cell objects after a call, targets on formulas / blanks / cells past the used range and inside range tails) on generated workbooks; after every query the response must equal what a fresh Parser+Executor report for the workbook with each overridden cell replaced by its most recent constant (reference execution in a pristine process with another hash seed). Exploration, not proof: a clean batch is evidence over the sampled histories only.',
                 note='Trusts openpyxl to write the edited workbook faithfully (a read-back self-check discards runs whose planted constants do not survive the xlsx round trip), the re-translation path itself (functional defects shared by both paths cancel out by design), and the generator bounds (<=3 sheets, <=48 cells, <=30 operations). The three defects this check found on the original tree (hash-order-dependent survivor of two writes, overridden formula still evaluated, whole-column references blind to rows appended by set_cells) were repaired in 10b93f2, 52e7894 and bc17b30; their minimised plans are replayed on every run (regress/). No finding is currently recorded for this property.'),
     'C08': dict(engine='execsim', design='4.2',
                 technique='deterministic simulation: seeded query histories over fixed overrides, every response compared with an isolated single query on a pristine executor in a foreign process',
@@ -18,11 +18,11 @@ CLAIMED = {
                 note='Exploration over sampled histories. The isolated reference uses the same generated source text (C09 decides that the text itself is stable). Grid shape is derived from the workbook spec, so the check assumes the reader reports the used range of a dense-origin workbook correctly (C18, not claimed).'),
     'C06': dict(engine='loadsim', design='4.6',
                 technique='deterministic simulation: seeded write/load/clock-jump/chdir/relink histories over real files re-stamped from a simulated clock (granularity 1ns..2s), file-loaded executor compared with the class object of the returned text',
-                text='Decides ONLY the clause "behaves the same whether loaded from the written file or used as a class object": 2-4 variants of a generated workbook are translated and written to 1-3 output paths repeatedly, the paths - spelled absolutely, relative to a working directory that changes, or through a symbolic link that is re-pointed; with distinct names or the same name in several directories - are loaded through Executor.set_executed_class(class_file=...) into fresh executors between clock jumps (forward and backward, inside and across timestamp quanta), other tools leave bytecode-cache entries behind, and every cell of the file-loaded executor must equal the same cell of an executor given the class object exec\'d from the text the parser returned for that write.',
+                text='Decides ONLY the clause "behaves the same whether loaded from the written file or used as a class object": 2-4 variants of a generated workbook are translated and written to 1-3 output paths repeatedly, the paths - spelled absolutely, relative to a working directory that changes, or through a symbolic link that is re-pointed; with distinct names or the same name in several directories - are loaded through Executor.set_executed_class(class_file=...) into fresh executors between clock jumps (forward and backward, inside and across timestamp quanta), other tools leave bytecode-cache entries behind, and every cell, the titles, the sizes and - after the same set_cells batch has been given to both - the overridden behaviour of the file-loaded executor must equal those of an executor given the class object exec\'d from the text the parser returned for that write (one class object per text, shared by all executors that use it).',
                 note='Totality, foreign exceptions and termination over arbitrary workbooks (the rest of C06) are a quantifier over inputs and are NOT decided here. File timestamps are re-stamped at close from the simulated clock; importlib itself is real. Bytecode writing is enabled at run time (the sandbox exports PYTHONDONTWRITEBYTECODE=1).'),
     'C12': dict(engine='clocksim', design='4.4',
-                technique='deterministic simulation: one translated criteria-matrix workbook evaluated along a seeded timeline of simulated instants/time zones (LD_PRELOAD clock shim) interleaved with set_cells edits of criterion/range cells; every TODAY-free cell must be time-invariant within an override epoch and equal to a pristine executor given the same overrides',
-                text='Decides ONLY the necessary condition that the positions selected by SUMIF/SUMIFS/COUNTIFS/AVERAGEIFS are a function of the CURRENT ranges and criteria - not of the day on which the formula is evaluated and not of what the executor evaluated or was told before: every conditional-aggregate cell without TODAY() must give the identical outcome at all of 6-20 simulated instants (every month-length class, month/year ends, zone changes, auto-advancing clock) that lie in one override epoch, and on half of the runs, where cells that criteria and ranges read are edited through set_cells between instants and queries are permuted/repeated, the used executor must answer like a brand-new executor given the same overrides at the same instant.',
+                technique='deterministic simulation: one translated criteria-matrix workbook evaluated along a seeded timeline of simulated instants/time zones (LD_PRELOAD clock shim) interleaved with set_cells edits of criterion/range cells; every TODAY-free cell must be time-invariant within an override epoch, equal to a pristine executor given the same overrides, and equal to a foreign process with another hash seed',
+                text='Decides ONLY the necessary condition that the positions selected by SUMIF/SUMIFS/COUNTIFS/AVERAGEIFS are a function of the CURRENT ranges and criteria - not of the day on which the formula is evaluated and not of what the executor evaluated or was told before: every conditional-aggregate cell without TODAY() must give the identical outcome at all of 6-20 simulated instants (every month-length class, month/year ends, zone changes, auto-advancing clock) that lie in one override epoch, and on half of the runs, where cells that criteria and ranges read are edited through set_cells between instants and queries are permuted/repeated, the used executor must answer like a brand-new executor given the same overrides at the same instant; and at the first instant every cell must equal the same cell in a pristine foreign process with another string hash seed.',
                 note='Does not decide whether the returned value is the right one (pure-input question, not claimed); the pristine executor runs the same generated class, so functional defects common to both cancel out. The defect this check found on the original tree (dateutil completing partial date texts from today) was repaired in 350f886; its minimised plan is replayed on every run (regress/).'),
     'C15': dict(engine='clocksim', design='4.5',
                 technique='deterministic simulation: TODAY() dashboard driven through seeded clock jumps (forward/backward), zone and DST changes under an LD_PRELOAD clock shim; responses checked against independent calendar arithmetic on the simulated instant',
